@@ -176,6 +176,81 @@ CHECKS = {
         "two seeded +-1 patterns for larger fans; eps=0, no weight decay, float64.",
         "DESIGN.md#c12",
     ),
+    "C15": (
+        "exhaustive enumeration of straight-line programs (depth 2/3 + deviation spines) run through "
+        "simulate_format and real TorchDynamo, and through the backend on hand-built FX graphs; "
+        "bit-exact comparison with a hand-quantised reference interpreter; random source owned",
+        "1.7k programs quick: every 1- and 2-instruction program over 24 instruction kinds (linear with "
+        "bias positional/keyword/absent, nn.Linear, U.linear forms, attention with mask positional/"
+        "keyword/causal/dropout_p=0 in F. and U. form, neutral ops), single-deviation spines, residual "
+        "shapes, torch.nn-only roots, x 4 format pairs (simulate_fp8, E4M3/E5M2 nearest, reduced-srbits "
+        "stochastic with torch.randint pinned order-independently, lossless E8M23): outputs and every "
+        "gradient bit-identical to the hand-written straight-through quantisation; lossless == "
+        "untransformed; quantised node count; tier A calls the library backend on emitted FX graphs "
+        "where U.linear/U.attention are leaf nodes.",
+        "programs exhaustive only to the stated depth; FPFormat.quantise itself trusted (C13/C14).",
+        "DESIGN.md#c15",
+    ),
+    "C16": (
+        "exhaustive enumeration of well-nested block programs run through unit_scale() and real "
+        "TorchDynamo, compared (float64) with a reference interpreter applying the User-Guide recipe",
+        "665 programs quick: every 1-instruction program over 31 kinds x first-instruction kinds "
+        "(input, nn.Embedding, F.embedding, token+position sum) x sinks (sum, mse, cross_entropy, "
+        "tensor), all 2-instruction programs over a 10-kind sub-alphabet, every single residual block "
+        "shape in both operand orders, sequential and nested residual pairs, torch.nn-only roots, "
+        "user-replacement precedence: outputs and all gradients equal the recipe (1e-11), weights "
+        "re-initialised to w/std, biases zero, original untouched.",
+        "well-nested programs only; float64; programs exhaustive to the stated depth.",
+        "DESIGN.md#c16",
+    ),
+    "C17": (
+        "complete enumeration of the allowed transform chains x orders x intermediate-call histories "
+        "x repeated calls, with invariants, a hand-composed reference and a differential oracle",
+        "For 6 module families and every subset of {unit_scale, one of 4 format simulations} optionally "
+        "ended by track_scales / compile: all orders, all called/not-called patterns of the "
+        "intermediate modules, 3 repeated final calls. Invariants: original state/outputs/gradients "
+        "untouched, no gradient sent to the original, no shared storage along the chain, backend list "
+        "has each transform once with unit scaling first, each backend runs once per trace, repeated "
+        "calls identical; all orders and histories agree bit for bit and equal the hand-composed "
+        "recipe-then-quantise reference.",
+        "compile only chained where documented; one value draw per family.",
+        "DESIGN.md#c17",
+    ),
+    "C18": (
+        "exhaustive enumeration of programs (depth 2/3, fan-out, int/bool intermediates, in-place, "
+        "multi-output) and call histories run through track_scales; independent recording interpreter",
+        "580 program/history cases quick: outputs and gradients bit-identical to the un-instrumented "
+        "module; every float node's six forward and backward statistics equal those recomputed by a "
+        "stock torch.fx.Interpreter (+ gradient hooks) on the graph Dynamo captured; no backward "
+        "metrics without gradient (also across fwd+bwd -> fwd-only call histories on the same module); "
+        "non-float nodes not instrumented; analyse_module leaves parameters/gradients intact and "
+        "annotates only real statistics. Known finding F9 (view + in-place on base) is reported as such.",
+        "program depth bound; one value draw.",
+        "DESIGN.md#c18",
+    ),
+    "C19": (
+        "enumeration of tracked graphs x pruning helper x parameter (all target subsets of size <= 2) "
+        "against an independent reference pruning that predicts node list and every argument slot",
+        "60 tracked programs (list/keyword/nested tensor arguments, masks, index tensors, views, "
+        "negations, residual fan-out, multiple outputs) x {non-float, same-scale at 3 tolerances, "
+        "every subset of distinct targets of size <= 2 and the full set, composition}: no exception, "
+        "lint, surviving node list and order, every survivor's positional/keyword/nested arguments "
+        "equal the original's with removed nodes contracted onto their single float input (or cut), "
+        "input graph of the copying helpers unchanged.",
+        "ambiguous readings of 'single float input' accept both outcomes; program family bounded.",
+        "DESIGN.md#c19",
+    ),
+    "C20": (
+        "lattice walk (default + all single-coordinate deviations) of every function, every module and "
+        "all length-2 compositions, each compiled from a fresh code object and compared with eager",
+        "427 compilations quick (aot_eager; inductor added in thorough): outputs and all gradients of "
+        "the compiled function equal eager to float64 1e-12 / float32 2e-6 / bfloat16 2e-2, for all "
+        "16 functions over their hyperparameter/constraint/shape/dtype deviations, 17 module "
+        "configurations x 2 dtypes, 49+ compositions; the backend is observed to receive a graph; "
+        "fx.symbolic_trace forward values equal eager.",
+        "CPU only; one value draw per case.",
+        "DESIGN.md#c20",
+    ),
 }
 
 NOT_YET = {}
